@@ -37,7 +37,12 @@ func genScenario(t *rapid.T) *modsim.Scenario {
 			sc.Steps = append(sc.Steps, modsim.Step{Op: "manage"})
 		}
 	}
-	sc.Steps = append(sc.Steps, modsim.Step{Op: "shutdown"})
+	// now and then Shutdown is called by two or three goroutines at once (signal handler and API request)
+	sc.Steps = append(sc.Steps, modsim.Step{Op: "shutdown", US: rapid.SampledFrom([]int{0, 0, 0, 1, 2}).Draw(t, "extra_shutdown_callers")})
+	if sc.Mgmt && rapid.IntRange(0, 3).Draw(t, "manage_during_start") == 0 {
+		// ... and management passes are requested while Start is still running
+		sc.Steps[0].US = rapid.IntRange(1, 4).Draw(t, "concurrent_manage_callers")
+	}
 	sc.Delays = modsim.GenDelays(t, sc.Modules, 2)
 	// After a Start that failed in a start routine the caller may go on with management passes (retry, switch
 	// modules). After a failed prep the module system is not usable beyond Shutdown (see DESIGN.md section 8).
@@ -114,6 +119,12 @@ func classify(sc *modsim.Scenario, res *modsim.Result) []string {
 	cls = append(cls, fmt.Sprintf("max_concurrent_starts_%d", min(max, 4)))
 	if manage > 0 {
 		cls = append(cls, "with_manage_steps")
+	}
+	if sc.Steps[0].US > 0 {
+		cls = append(cls, "management_pass_requested_while_start_runs")
+	}
+	if sc.Steps[len(sc.Steps)-1].US > 0 {
+		cls = append(cls, "shutdown_called_by_several_goroutines")
 	}
 	startFailed, startedLater := false, false
 	for _, ev := range res.Events {
